@@ -19,6 +19,7 @@ import (
 	"os"
 	"path/filepath"
 	"sort"
+	"strings"
 	"sync"
 	"time"
 
@@ -518,6 +519,49 @@ func lateUpgrade() (returned, closed bool, note string) {
 	return returned, closed, ""
 }
 
+// isolation: closing an object affects only that object.  Socket A listens on an address; socket B's Listen on the same
+// address fails (in use); B is closed; a new peer must still reach A there.  Likewise a listener that was created for
+// the address but never started, then closed.
+func isolation(tr string, unstarted bool) (ok bool, note string) {
+	a := wire.New("pair")
+	defer a.Close()
+	ad := wire.Addr(tr)
+	la, err := a.NewListener(ad, wire.Opts(tr, true))
+	if err != nil {
+		return false, "NewListener: " + err.Error()
+	}
+	if err := la.Listen(); err != nil {
+		return false, "Listen: " + err.Error()
+	}
+	b := wire.New("pair")
+	lb, err := b.NewListener(ad, wire.Opts(tr, true))
+	if err == nil {
+		if !unstarted {
+			if e := lb.Listen(); e == nil {
+				_ = b.Close()
+				return false, "second Listen on the same address succeeded"
+			}
+		}
+		_ = lb.Close()
+	}
+	_ = b.Close()
+	c := wire.New("pair")
+	defer c.Close()
+	_ = c.SetOption(mangos.OptionSendDeadline, time.Second)
+	_ = a.SetOption(mangos.OptionRecvDeadline, 2*time.Second)
+	if err := c.DialOptions(ad, wire.Opts(tr, false)); err != nil {
+		return false, "Dial after the other listener was closed: " + err.Error()
+	}
+	if err := c.Send([]byte("still here")); err != nil {
+		return false, "Send: " + err.Error()
+	}
+	m, err := a.Recv()
+	if err != nil || string(m) != "still here" {
+		return false, fmt.Sprintf("Recv: %v %q", err, m)
+	}
+	return true, ""
+}
+
 // send side: what Send writes for a header and a body
 func runSend(r *rand.Rand) string {
 	ipc := r.Intn(2) == 0
@@ -646,6 +690,17 @@ func main() {
 	for i, n := range []int{0, 1, 63, 64, 65, 1000, 60000, 70000} {
 		e, fr := runSendFail(i%2 == 1, n)
 		sf = append(sf, fmt.Sprintf("(%s, %d, %s, %d)", coqgen.Bool(i%2 == 1), n, coqgen.Bool(e), fr))
+	}
+	for _, tr := range wire.Transports {
+		for _, un := range []bool{false, true} {
+			ok, note := isolation(tr, un)
+			n := ""
+			if note != "" {
+				n = " (* " + strings.ReplaceAll(note, "*)", "") + " *)"
+				fmt.Fprintln(os.Stderr, "stream: isolation", tr, un, note)
+			}
+			late = append(late, fmt.Sprintf("(%q, %s, true)%s", "closing a second listener for an address in use leaves the first one reachable ("+tr+map[bool]string{true: ", never started", false: ", Listen failed"}[un]+")", coqgen.Bool(ok), n))
+		}
 	}
 	const shards = 16
 	for k := 0; k < shards; k++ {
